@@ -549,7 +549,7 @@ func parseOTLP(payload *zipkinPayload) (*v1.Span, string, error) {
 		span *v1.Span
 		err  error
 	)
-	if payload.payload[0] == '{' {
+	if len(payload.payload) > 0 && payload.payload[0] == '{' {
 		span, err = parseOTLPJson(payload)
 	} else {
 		span, err = parseOTLPPB(payload)
